@@ -107,10 +107,12 @@ def run(tier, seed, replay=None):
         ntrees = 12 if tier == "quick" else 120
         for ti in range(ntrees):
             base = os.path.join(tmp, "t%d" % ti)
-            tree = gen_tree(rng)
-            write_tree(os.path.join(base, "proj"), tree)
+            tree = gen_tree(rng) + [["app", "core.py"], ["app", "sub", "inner.py"], ["app_plugins", "plug.py"], ["build", "gen", "made.py"]]
+            # the name of the target directory itself must not matter (vendor-like, upper case, with dots)
+            PROJ = ["proj", "proj", "build", "venv", "dist", "Env", "my.egg-info", "node_modules"][ti % 8]
+            write_tree(os.path.join(base, PROJ), tree)
             hist["trees"] += 1
-            sp = spellings(base, "proj")
+            sp = spellings(base, PROJ)
             psets = [PATTERN_SETS[0]] + rng.sample(PATTERN_SETS[1:], 3)
             calls, meta = [], []
             for inc, exc in psets:
@@ -129,7 +131,7 @@ def run(tier, seed, replay=None):
                     res.violation("CollectPythonFiles failed for target %r from %s: %s" % (target, cwd, o.get("err") or o.get("error")), rp)
                     continue
                 got = o["files"]
-                canon = sorted(os.path.relpath(os.path.realpath(os.path.join(cwd, f)), os.path.join(base, "proj")) for f in got)
+                canon = sorted(os.path.relpath(os.path.realpath(os.path.join(cwd, f)), os.path.join(base, PROJ)) for f in got)
                 if len(set(canon)) != len(canon):
                     res.violation("C18: a file is selected twice for target %r: %s" % (target, [c for c in canon if canon.count(c) > 1][:3]), dict(rp, signature={"kind": "duplicate"}))
                 groups.setdefault((tuple(inc), tuple(exc), recursive), []).append((target, cwd, canon))
@@ -159,18 +161,37 @@ def run(tier, seed, replay=None):
             pyfiles = ["/".join(r) for r in tree if r[-1].lower().endswith((".py", ".pyi"))]
             multi = []
             if dirs:
-                multi.append(["proj", "proj/" + rng.choice(dirs)])
-                multi.append(["proj/" + rng.choice(dirs), "proj"])
+                multi.append([PROJ, PROJ + "/" + rng.choice(dirs)])
+                multi.append([PROJ + "/" + rng.choice(dirs), PROJ])
             if pyfiles:
                 f1 = rng.choice(pyfiles)
-                multi.append(["proj/" + f1, "proj"])
-                multi.append(["proj/" + f1, "proj/" + f1])
+                multi.append([PROJ + "/" + f1, PROJ])
+                multi.append([PROJ + "/" + f1, PROJ + "/" + f1])
+            # sibling targets whose names are prefixes of one another; a nested target the outer walk skips
+            multi += [[PROJ + "/app", PROJ + "/app_plugins"], [PROJ + "/app_plugins", PROJ + "/app"], [PROJ + "/app/", os.path.join(base, PROJ, "app_plugins")],
+                      [PROJ, PROJ + "/build/gen"], [PROJ + "/build/gen", PROJ]]
             mo = C.harness_batch("files", [{"Cwd": base, "Paths": p, "Recursive": True, "Include": PATTERN_SETS[0][0], "Exclude": PATTERN_SETS[0][1]} for p in multi]) if multi else []
             for p, o in zip(multi, mo):
                 hist["multi_target_calls"] += 1
                 if "files" not in o:
                     continue
-                canon = sorted(os.path.relpath(os.path.realpath(os.path.join(base, f)), os.path.join(base, "proj")) for f in o["files"])
+                canon = sorted(os.path.relpath(os.path.realpath(os.path.join(base, f)), os.path.join(base, PROJ)) for f in o["files"])
+                # expected: the union of what each target selects on its own (the model's `select` per target), each file once
+                if have_driver:
+                    want = set()
+                    for tgt in p:
+                        relt = os.path.relpath(os.path.join(base, tgt), os.path.join(base, PROJ))
+                        pre = [] if relt == "." else relt.split("/")
+                        if os.path.isfile(os.path.join(base, tgt)):
+                            sub = [[pre[-1]]] if pre else []
+                            pre = pre[:-1]
+                        else:
+                            sub = [r[len(pre):] for r in tree if r[:len(pre)] == pre and len(r) > len(pre)]
+                        got1 = C.driver_batch([lean_files(True, PATTERN_SETS[0][0], PATTERN_SETS[0][1], [], sub)])[0].split("|")[1]
+                        want |= set("/".join(pre + [x]) if pre else x for x in got1.split(",") if x)
+                    if sorted(want) != sorted(set(canon)):
+                        res.violation("C18: targets %s select %s, the union of the targets' own selections is %s" % (p, sorted(set(canon)), sorted(want)),
+                                      {"signature": {"kind": "multi-target"}, "tree": ["/".join(r) for r in tree], "targets": p})
                 if len(set(canon)) != len(canon):
                     sig = {"kind": "duplicate-overlapping-targets"}
                     k = C.classify(PID, sig)
@@ -195,7 +216,7 @@ def run(tier, seed, replay=None):
                         if data is None:
                             fl = None
                         else:
-                            fl = sorted(set(os.path.relpath(os.path.realpath(os.path.join(cwd, f["FilePath"])), os.path.join(base, "proj"))
+                            fl = sorted(set(os.path.relpath(os.path.realpath(os.path.join(cwd, f["FilePath"])), os.path.join(base, PROJ))
                                             for f in ((data.get("complexity") or {}).get("Functions") or []) if f["Name"] != "__main__"))
                         seen.append((target, os.path.relpath(cwd, base), fl, err[-200:] if data is None else ""))
                     ref = seen[0]
